@@ -243,9 +243,12 @@ def perturb(g, insts):
     if not insts:
         return insts
     insts = [list(i) for i in insts]
-    k = g.int(0, 6)
+    k = g.int(0, 7)
     j = g.r.randrange(len(insts))
-    if k == 0:
+    if k == 7 and insts[j][2]:
+        # fewer operands than the item lists (down to none: the record then has one empty operand field)
+        insts[j][2] = list(insts[j][2])[:g.int(0, len(insts[j][2]) - 1)]
+    elif k == 0:
         del insts[j]
     elif k == 1:
         new = g.inst("0")
